@@ -1,8 +1,68 @@
 package graphsync
 
+import (
+	"github.com/ipfs/go-graphsync"
+	ipld "github.com/ipld/go-ipld-prime"
+	"github.com/libp2p/go-libp2p/core/peer"
+
+	datatransfer "github.com/filecoin-project/go-data-transfer/v2"
+	zz "github.com/filecoin-project/go-data-transfer/v2/zzverif"
+)
+
 // VerifC05_ExtensionCrossCheck: role-confused messages piggy-backed on a graphsync request
 // (a request on a channel the sender did not initiate, a response on a channel the sender
 // initiated), under any of the three data-transfer extension names and in both passes of the
 // response hook, reach no channel: the request is terminated and no event is produced.
 // (Same harness body as VerifC16_UpdateHooks; registered under C05 because the clause is C05's.)
 func VerifC05_ExtensionCrossCheck() { VerifC16_UpdateHooks() }
+
+// VerifC05_RefusedRequestLeavesChannelTransportUntouched: a live channel (request r0 accepted,
+// store registered) receives a SECOND graphsync request that names the same channel ID - a
+// restart request that does not repeat the original parameters, a duplicate new request, anything
+// the manager refuses (the events handler answers with an error). The refused request is
+// terminated, and the existing channel's transport state is exactly as it was: still tracked, r0
+// still its current request and still mapped to it, its store still registered; pause / close
+// still act on r0; r0's blocks are still reported.
+func VerifC05_RefusedRequestLeavesChannelTransportUntouched() {
+	f := verifNewTransport()
+	p := peer.ID(zz.String("p"))
+	tid := datatransfer.TransferID(zz.Uint64("tid"))
+	chid := datatransfer.ChannelID{Initiator: p, Responder: f.self, ID: tid}
+	r0, r1 := verifRid("r0"), verifRid("r1")
+	zz.Assume(r0 != r1)
+	withStore := zz.Bool("withStore")
+	if withStore {
+		zz.Assert(f.t.UseStore(chid, ipld.LinkSystem{}) == nil, "store registered")
+	}
+	req := verifArbitraryRequest("req")
+	zz.SetInt(&req.TransferId, uint64(tid))
+	f.t.gsReqRecdHook(p, verifReqWith(r0, req), &verifActions{})
+	ch := f.t.dtChannels[chid]
+	zz.Assert(ch != nil && ch.requestID != nil && *ch.requestID == r0, "setup: r0 is the channel's request")
+	f.gs.Calls = nil
+	f.ev.Calls = nil
+
+	// the refused request
+	req2 := verifArbitraryRequest("req2")
+	zz.SetInt(&req2.TransferId, uint64(tid))
+	f.ev.Err = zz.Error("refused")
+	act := &verifActions{}
+	f.t.gsReqRecdHook(p, verifReqWith(r1, req2), act)
+	f.ev.Err = nil
+	zz.Assert(act.count(actTerminate) == 1, "the refused request is terminated")
+
+	got, still := f.t.dtChannels[chid]
+	zz.Assert(still && got == ch, "the existing channel is still tracked")
+	owner, mapped := f.t.requestIDToChannelID.load(r0)
+	zz.Assert(mapped && owner == chid, "its request is still mapped to it")
+	zz.Assert(f.gs.count(gsUnregister) == 0, "its store is still registered")
+	zz.Assert(ch.hasStore() == withStore, "store flag unchanged")
+	// its blocks are still reported
+	f.ev.Calls = nil
+	blk := verifArbitraryBlock()
+	zz.Assume(blk.onWire != 0)
+	f.t.gsBlockSentHook(p, &verifReqData{id: r0}, blk)
+	zz.Assert(f.ev.count(evSent) == 1 && f.ev.onlyFor(chid), "blocks of the live request are still reported for the channel")
+	var _ graphsync.RequestID = r1
+	zz.Reach("existing channel untouched")
+}
